@@ -103,3 +103,97 @@ func HarnessC05AcceptedBlock() {
 	verifCheckOwned("C17.block-application")
 	verifReach("C05.accepted")
 }
+
+// HarnessC05Assembled: the block's proof is not the prover's output but assembled by the library:
+// mode 1: AddProof of the proofs of two selections; mode 2: GetProofSubset of a bigger proof;
+// mode 3: a light client's cached proof after Proof.Update over one block.  The assembled
+// (hashes, proof) must be accepted by Verify and applied identically everywhere.
+func HarnessC05Assembled() {
+	w := newWorld()
+	mode := verifParam("mode", 1)
+	var client *lightClient
+	if mode == 3 {
+		// the client follows the history from the start, remembering every addition
+		client = &lightClient{}
+		blocks := verifParam("B", 2)
+		maxN := verifParam("N", 4)
+		for k := 0; k < blocks; k++ {
+			v := w.rm.view()
+			b := w.rm.refBlock(v, verifParam("D", 1), refMin(verifParam("A", 2), maxN-len(w.rm.leaves)))
+			var rem []uint32
+			for i := range b.adds {
+				rem = append(rem, uint32(i))
+			}
+			first := len(w.rm.leaves)
+			w.block(b, "C05.history")
+			if !client.step(b, rem, first) {
+				return
+			}
+		}
+	} else {
+		w.history("C05.history", false)
+	}
+	v := w.rm.view()
+	live := w.rm.liveSlots()
+	var hs []Hash
+	var proof Proof
+	var slots []int
+	switch mode {
+	case 1:
+		sa := refPickSubset("A", live, verifParam("K", 2))
+		sb := refPickSubset("B", live, verifParam("K", 2))
+		pa, ha, _ := c14Proof(w.rm, v, sa)
+		pb, hb, _ := c14Proof(w.rm, v, sb)
+		hs, proof = AddProof(pa, pb, ha, hb, v.n)
+		slots = c14Union(sa, sb)
+	case 2:
+		sa := refPickSubset("A", live, verifParam("K", 3))
+		pa, ha, _ := c14Proof(w.rm, v, sa)
+		sw := refPickSubset("W", sa, verifParam("K", 3))
+		if len(sw) == 0 {
+			return
+		}
+		var wants []uint64
+		for _, s := range sw {
+			wants = append(wants, v.nodes[v.leafIdx[s]].pos)
+		}
+		var err error
+		hs, proof, err = GetProofSubset(pa, ha, wants, v.n)
+		verifAssert(err == nil, "C05.assembled.subset-ok")
+		if err != nil {
+			return
+		}
+		slots = sw
+	case 3:
+		hs, proof = client.hashes, client.proof
+		slots = client.held
+	}
+	if len(slots) == 0 {
+		return
+	}
+	_, err := Verify(w.st, hs, proof)
+	verifAssert(err == nil, "C05.assembled.accepted")
+	if err != nil {
+		return
+	}
+	b := &refBlockT{delSlots: slots, targets: proof.Targets, hashes: hs, proof: proof}
+	after := w.rm.apply(b)
+	av := after.view()
+	_, err = w.st.Update(hs, nil, proof)
+	verifAssert(err == nil, "C05.assembled.stump.applies")
+	c01CheckRoots(w.st.Roots, w.st.NumLeaves, av, "C05.assembled.stump")
+	if w.p != nil {
+		verifAssert(w.p.Modify(nil, hs, proof) == nil, "C05.assembled.pollard.applies")
+		c01CheckRoots(w.p.GetRoots(), w.p.GetNumLeaves(), av, "C05.assembled.pollard")
+	}
+	if w.full != nil {
+		verifAssert(w.full.Modify(nil, hs, proof) == nil, "C05.assembled.mapfull.applies")
+		c01CheckRoots(w.full.GetRoots(), w.full.GetNumLeaves(), av, "C05.assembled.mapfull")
+	}
+	if w.part != nil {
+		verifAssert(w.part.Verify(hs, proof, true) == nil, "C05.assembled.mappartial.verify-remember")
+		verifAssert(w.part.Modify(nil, hs, proof) == nil, "C05.assembled.mappartial.applies")
+		c01CheckRoots(w.part.GetRoots(), w.part.GetNumLeaves(), av, "C05.assembled.mappartial")
+	}
+	verifReach("C05.assembled")
+}
